@@ -235,6 +235,7 @@ class Interp:
         self.unsupported = []
         self.paths = 0
         self.decides = 0
+        self.extracted_roots = set()
         self.native_models = _build_models(self)
         self.method_models = _build_method_models(self)
         self.loop_ordinals = {}
@@ -899,6 +900,12 @@ class Interp:
             raise
         except StopIteration:
             raise
+        except (TypeError, AttributeError) as ex:
+            # a native (C / library) function that was handed a symbolic or abstract value fails because the interpreter has no model
+            # of it - that is a limit of the verifier (undecided), not an exception of the program
+            if _has_abstract(args) or _has_abstract(tuple(kwargs.values())) or _has_abstract((getattr(f, '__self__', None),)):
+                raise Unsupported('native %s called with a symbolic / abstract argument: %s' % (getattr(f, '__qualname__', getattr(f, '__name__', f)), ex))
+            raise PyRaise(ex)
         except Exception as ex:
             raise PyRaise(ex)
 
@@ -1177,6 +1184,9 @@ class Interp:
             itv = self.make_iter(itv)
         if isinstance(itv, CountedList):
             return self.fold_counted(s, fr, itv)
+        if isinstance(itv, SRange) and isinstance(itv.start, int) and itv.step == 1:
+            # small symbolic trip count (like comprehensions): fork on its value, complete up to the stated limit, else unsupported
+            itv = range(itv.start, itv.start + self.concretize(itv.count(), 0, 16))
         if isinstance(itv, (SRange, SSeq, SBits, SRepeat, OpaqueSeq, OpaqueIter, SLazySeq)):
             raise Unsupported('loop %r over symbolic-length iterable without invariant' % (key,))
         it = self.make_iter(itv)
@@ -1445,6 +1455,13 @@ class Interp:
             return g[name]
         if hasattr(builtins, name):
             return getattr(builtins, name)
+        root = fr
+        while root.parent is not None:
+            root = root.parent
+        if id(root) in getattr(self, 'extracted_roots', ()):
+            # a nested helper that was extracted from its enclosing function for a kernel proof reads a variable of that function which the
+            # contract does not supply: the contract does not attach (undecided), the program has no NameError
+            raise Unsupported('contract does not attach: extracted helper %s reads %r from its enclosing function' % (fr.qualname, name))
         raise PyRaise(NameError("name %r is not defined" % name))
 
     def e_Name(self, n, fr):
@@ -2069,6 +2086,17 @@ class Interp:
             else:
                 kwargs[kw.arg] = self.eval(kw.value, fr)
         return self.call_function(f, tuple(args), kwargs)
+
+
+def _has_abstract(vals, depth=0):
+    from . import strings as _T
+    for v in vals:
+        if isinstance(v, (SInt, SBool, SQuant, SRatio, SSeq, SBits, SRepeat, SLazySeq, VBytearray, Obj, TupObj, CountedList, OpaqueSeq, OpaqueElem,
+                          OpaqueIter, FieldBuf, GFLin, GFLog, _T.StrTok, _T.Rope, Closure)):
+            return True
+        if depth < 2 and isinstance(v, (tuple, list)) and _has_abstract(v, depth + 1):
+            return True
+    return False
 
 
 def _mentions(e, names):
